@@ -13,10 +13,14 @@ class FakeInst:
     """Simulated PPG3204: records every SCPI string, implements the pattern memory (IEEE-488.2 blocks)."""
     def __init__(self, maxmem):
         self.log = []
+        self.settings = {}
         self.mem = {ch: np.zeros(maxmem + 2, dtype=np.uint8) for ch in range(1, 5)}
 
     def query(self, cmd):
         self.log.append(cmd)
+        q = self.answer(cmd)
+        if q is not None:
+            return q
         m = re.fullmatch(r":DIG(\d+):PATT:DATA\? (\d+),(\d+)", cmd)
         if m:
             ch, addr, n = int(m.group(1)), int(m.group(2)), int(m.group(3))
@@ -29,6 +33,30 @@ class FakeInst:
             if ch in self.mem and 1 <= addr and addr - 1 + len(bits) <= len(self.mem[ch]):
                 self.mem[ch][addr - 1:addr - 1 + len(bits)] = [int(c) for c in bits]
         return "\n"
+
+    DEFAULTS = {"FREQ": "1.00000e+10", "VOLT:POS": "1.0", "VOLT:OFFS": "0.0", "SKEW": "0.0", "PATT:LENG": "2", "PATT:PLEN": "7",
+                "PATT:TYPE": "DATA", "PATT:BSH": "0", "OUTP": "OFF"}
+
+    def answer(self, cmd):
+        """settings are stored as the value text received; queries return it (power-on defaults otherwise)"""
+        pats = [(r":FREQ (\S+)", "FREQ", None), (r":DIG(\d+):PATT:LENG (\S+)", "PATT:LENG", 1), (r":DIG(\d+):PATT:PLEN (\S+)", "PATT:PLEN", 1),
+                (r":SKEW(\d+) (\S+)", "SKEW", 1), (r":VOLT(\d+):POS (\S+)v", "VOLT:POS", 1), (r":VOLT(\d+):(?:NEG|POS):OFFS (\S+)v", "VOLT:OFFS", 1),
+                (r":DIG(\d+):PATT:TYPE (\S+)", "PATT:TYPE", 1), (r":DIG(\d+):PATT:BSH (\S+)", "PATT:BSH", 1), (r":OUTP(\d+) (\S+)", "OUTP", 1)]
+        for pat, verb, chg in pats:
+            m = re.fullmatch(pat, cmd)
+            if m:
+                ch = int(m.group(1)) if chg else 0
+                self.settings[(verb, ch)] = m.group(2) if chg else m.group(1)
+                return None
+        qs = [(r":FREQ\?", "FREQ", None), (r":DIG(\d+):PATT:LENG\?", "PATT:LENG", 1), (r":DIG(\d+):PATT:PLEN\?", "PATT:PLEN", 1), (r":SKEW(\d+)\?", "SKEW", 1),
+              (r":VOLT(\d+):POS\?", "VOLT:POS", 1), (r":VOLT(\d+):OFFS\?", "VOLT:OFFS", 1), (r":DIG(\d+):PATT:TYPE\?", "PATT:TYPE", 1),
+              (r":DIG(\d+):PATT:BSH\?", "PATT:BSH", 1)]
+        for pat, verb, chg in qs:
+            m = re.fullmatch(pat, cmd)
+            if m:
+                ch = int(m.group(1)) if chg else 0
+                return self.settings.get((verb, ch), self.DEFAULTS[verb])
+        return None
 
     def clear(self):
         pass
@@ -63,6 +91,12 @@ def parse_cmd(c):
         if (m.group(2) == "NEG") != (float(m.group(3)) < 0):
             r["exact"] = False
         return r
+    for pat, verb in ((r":FREQ\?", "FREQ?"), (r":DIG(-?\d+):PATT:LENG\?", "PATT:LENG?"), (r":DIG(-?\d+):PATT:PLEN\?", "PATT:PLEN?"), (r":SKEW(-?\d+)\?", "SKEW?"),
+                      (r":VOLT(-?\d+):POS\?", "VOLT:POS?"), (r":VOLT(-?\d+):OFFS\?", "VOLT:OFFS?"), (r":DIG(-?\d+):PATT:TYPE\?", "PATT:TYPE?"),
+                      (r":DIG(-?\d+):PATT:BSH\?", "PATT:BSH?")):
+        m = re.fullmatch(pat, c)
+        if m:
+            return {"verb": verb, "ch": int(m.group(1)) if m.groups() else 0, "val": 0, "exact": True}
     m = re.fullmatch(r":DIG(-?\d+):PATT:TYPE (DATA|PRBS)", c)
     if m:
         return {"verb": "PATT:TYPE", "ch": int(m.group(1)), "val": 1 if m.group(2) == "PRBS" else 0, "exact": True}
@@ -155,6 +189,37 @@ def run(ctx):
                 raised = type(e).__name__
         return [parse_cmd(x) for x in ppg.inst.log], any(issubclass(x.category, UserWarning) for x in w), raised
 
+    def do_get(ppg, q, sel):
+        ppg.inst.log.clear()
+        raised, vals = False, []
+        with warnings.catch_warnings():
+            warnings.simplefilter("ignore")
+            try:
+                with deadline(30):
+                    if q == "freq":
+                        out = [ppg.get_freq()]
+                    else:
+                        out = {"amp": ppg.get_output_voltage, "offs": ppg.get_offset, "skew": ppg.get_skew, "plen": ppg.get_patt_len, "order": ppg.get_prbs_order,
+                               "PATT:TYPE": ppg.get_mode, "PATT:BSH": ppg.get_bits_shift}[q](sel_arg(sel))
+                    for v in out:
+                        if q == "PATT:TYPE":
+                            vals.append(1 if str(v).strip().upper() == "PRBS" else 0)
+                        else:
+                            u = UNIT.get(q, 1)
+                            vals.append(int(round(float(v) / u)))
+            except Exception as e:
+                raised = type(e).__name__
+        return [parse_cmd(c) for c in ppg.inst.log], vals, raised
+
+    def apply_prev(ppg, prev):
+        if prev["op"] == "set":
+            do_set(ppg, prev["q"], prev["req"], prev["scalar"], prev["sel"])
+        elif prev["op"] == "flag":
+            do_flag(ppg, prev["verb"], prev["val"], prev["sel"])
+        elif prev["op"] == "config":
+            do_config(ppg, prev["c"], prev["bits"], prev["sel"], "call")
+        return [parse_cmd(c) for c in ppg.inst.log]
+
     def do_set_data(ppg, bits, addr, sel, form):
         ppg.inst.log.clear()
         data = "".join(map(str, bits)) if form == "str" else (list(bits) if form == "list" else np.array(bits))
@@ -182,7 +247,7 @@ def run(ctx):
 
     # ------------------------------------------------------------------ 1. model checking + replay of every TLC state
     CH, MM = 4, 12
-    r = ctx.tlc("PPGModel", f"SPECIFICATION Spec\nINVARIANT EveryCmdInRange\nINVARIANT ChunkingCorrect\nINVARIANT RoundTrip\nINVARIANT ConfigIsComposition\nINVARIANT Emit\n"
+    r = ctx.tlc("PPGModel", f"SPECIFICATION Spec\nINVARIANT EveryCmdInRange\nINVARIANT ChunkingCorrect\nINVARIANT RoundTrip\nINVARIANT ConfigIsComposition\nINVARIANT ReadBackInRange\nINVARIANT Emit\n"
                 f"CHECK_DEADLOCK FALSE\nCONSTANTS Chunk = {CH}\n MaxMem = {MM}\n MaxOps = 1\n", workers=1, note="setters x request classes x selections; single data ops")
     ctx.tlc("PPGModel", f"SPECIFICATION Spec\nINVARIANT EveryCmdInRange\nINVARIANT ChunkingCorrect\nINVARIANT RoundTrip\n"
             f"CHECK_DEADLOCK FALSE\nCONSTANTS Chunk = {CH}\n MaxMem = {MM}\n MaxOps = {3 if T else 2}\n", note="data histories", timeout=3000, actions=["Setter", "SetFlag", "Config", "SetData", "GetData"])
@@ -215,6 +280,27 @@ def run(ctx):
             given = tuple(k for k in sorted(last["c"]) if last["c"][k] != [])
             meta.append(("config", given, tuple(last["sel"]), raised))
             ctx.case(("config", given, len(last["sel"])), {"call": last["c"], "sel": last["sel"], "emitted": len(cmds)}, nontrivial=bool(cmds))
+        elif last["op"] == "get":
+            if last["q"] == "OUTP":
+                events.append({"kind": "reset"}); meta.append(("reset",))
+                continue                               # the driver has no output-state query
+            prev = last["prev"]
+            if prev["op"] != "init":
+                pc = apply_prev(ppg, prev)
+                kindmap = {"set": "set", "flag": "flag", "config": "config"}
+                base = {"kind": kindmap[prev["op"]], "cmds": pc, "warned": True, "raised": False, "sel": prev["sel"]}
+                if prev["op"] == "set":
+                    base.update(q=prev["q"], req=prev["req"], scalar=prev["scalar"], warned=prev["warn"])
+                elif prev["op"] == "flag":
+                    base.update(verb=prev["verb"], val=prev["val"], warned=prev["warn"])
+                else:
+                    base.update(c=prev["c"], bits=prev["bits"], warned=prev["mustwarn"])
+                events.append(base)
+                meta.append((prev["op"], "before-get", "", "", False))
+            cmds, vals, raised = do_get(ppg, last["q"], last["sel"])
+            events.append({"kind": "get", "q": last["q"], "sel": last["sel"], "cmds": cmds, "vals": vals, "raised": bool(raised)})
+            meta.append(("get", last["q"], prev["op"], tuple(last["sel"]), raised))
+            ctx.case(("get", last["q"], prev["op"], len(last["sel"])), {"get": last["q"], "after": prev["op"], "vals": vals})
         elif last["op"] == "set_data":
             cmds, warned, raised = do_set_data(ppg, last["bits"], last["addr"], last["sel"], rnd.choice(["str", "list", "ndarray"]))
             events.append({"kind": "set_data", "bits": last["bits"], "addr": last["addr"], "sel": last["sel"], "cmds": cmds,
@@ -353,22 +439,9 @@ def validate(ctx, events, meta, chunk, maxmem, note):
             cur.append((e, m))
     if cur:
         batches.append(cur)
-    # independent histories that never write data can share one monitor run; those that do are run with address spaces kept apart
-    # by the monitor itself: we prefix a synthetic "wipe" - implemented as separate TLC invocations grouped to bound JVM starts.
-    groups, g, dirty = [], [], False
-    for b in batches:
-        writes = any(e["kind"] == "set_data" for e, _ in b)
-        if writes and dirty or len(g) > 4000:
-            groups.append(g)
-            g, dirty = [], False
-        g += b
-        dirty = dirty or writes
-    if g:
-        groups.append(g)
-    # many tiny groups (one per replayed set_data state) -> merge by giving each history its own TLC run would be slow;
-    # instead histories that write are distinguished by channel-independent memory wipes: handled through `wipe` events.
+    # every history runs on its own fresh simulated instrument: the monitor's memory and settings are wiped in between
     merged, metas = [], []
-    for gi, g in enumerate(groups):
+    for gi, g in enumerate(batches):
         if gi > 0:
             merged.append({"kind": "wipe"})
             metas.append(("wipe",))
